@@ -164,6 +164,7 @@ def _task(t):
                 bad("second-hash-different-constraint-count", "first hash %d constraints, second %d" % (c1, len(H.R.cons) - c1))
             del H.R.cons[c1:]
         ncons = (len(msg) // 4, len(H.R.cons) - (len(msg) if typ == "bool" else 0))
+        trace_key = ("sponge", typ, len(msg))
         st["transitions"] += len(H.R.cons)
         st["compared"] += 1
         if got != want:
@@ -258,7 +259,11 @@ def _task(t):
         bad("unsat", "constraints not satisfied for %s" % (item,))
     if H.value_wire_mismatches(res):
         bad("value!=wire", "output value differs from its wire for %s" % (item,))
-    return {"st": st, "viols": viols, "ncons": ncons, "kind": kind}
+    # the whole canonical trace (which wire occurs where), not only the number of constraints
+    import hashlib
+    tr = hashlib.sha1(repr(H.R.canonical_trace(0, 0)).encode()).hexdigest()[:16]
+    return {"st": st, "viols": viols, "ncons": ncons, "kind": kind,
+            "trace": ((("perm",) if kind == "perm" else trace_key), tr, repr(item)[:80])}
 
 
 def lazy_import_children(ctx):
@@ -333,6 +338,7 @@ def run(ctx):
     level = 1 if ctx.thorough else 0
     agg = {}
     ncons_seen = {}
+    traces_seen = {}
     for name, (mod, p) in FIELDS.items():
         tasks = [("perm", name, s) for s in states(p, level)] + [("perm", name, ("const", i)) for i in range(16)] + [("sponge", name, m) for m in messages(p, level)]
         tasks += [("padding", name, None), ("ggh", name, 10 if ctx.thorough else 8)]
@@ -346,6 +352,8 @@ def run(ctx):
             if r.get("ncons") is not None:
                 key = (name, r["kind"]) if r["kind"] == "perm" else (name, r["kind"], r["ncons"][0])
                 ncons_seen.setdefault(key, set()).add(r["ncons"] if r["kind"] == "perm" else r["ncons"][1])
+            if r.get("trace"):
+                traces_seen.setdefault((name,) + tuple(r["trace"][0]), {}).setdefault(r["trace"][1], r["trace"][2])
     # the same gadgets on the REAL zkinterface backend modules (the recorder cannot see their arithmetic)
     for name, (mod, p) in FIELDS.items():
         st_ = states(p, 0)
@@ -359,6 +367,13 @@ def run(ctx):
             common.merge_counts(agg, r["st"])
             for sig, text in r["viols"]:
                 ctx.violation(sig, {"field": name, "real": True}, text)
+    for key, tr in traces_seen.items():
+        if len(tr) > 1:
+            ex = list(tr.values())[:2]
+            ctx.violation({"klass": "trace-depends-on-input-values", "field": key[0], "gadget": key[1]}, {"field": key[0]},
+                          "%s: inputs %s and %s of the same shape emit different constraint systems (same count or not): the circuit depends on the values hashed"
+                          % (key, ex[0], ex[1]))
+    ctx.cov["trace_groups"] = len(traces_seen)
     for key, counts in ncons_seen.items():
         if len(counts) > 1:
             ctx.violation({"klass": "constraint-count-depends-on-input", "field": key[0]}, {"key": list(key)},
